@@ -102,6 +102,23 @@ func StartModel(t testing.TB) *Model {
 	return &Model{cmd: cmd, in: in, out: bufio.NewReaderSize(out, 1<<20)}
 }
 
+// StartModelNoT starts the model outside a test (sandbox children).
+func StartModelNoT() (*Model, error) {
+	cmd := exec.Command(kmodelPath())
+	in, err := cmd.StdinPipe()
+	if err != nil {
+		return nil, err
+	}
+	out, err := cmd.StdoutPipe()
+	if err != nil {
+		return nil, err
+	}
+	if err := cmd.Start(); err != nil {
+		return nil, err
+	}
+	return &Model{cmd: cmd, in: in, out: bufio.NewReaderSize(out, 1<<20)}, nil
+}
+
 // Ask sends one request line and returns the model's one-line answer.
 func (m *Model) Ask(line string) string {
 	m.mu.Lock()
